@@ -177,6 +177,7 @@ func specUploader(u *uploader) bool {
 // label of another), and it is an entry of the report: an existing one, or a
 // new one appended with empty maps.
 //@ contract findProgReport
+//@   timeout 60
 //@   requires report != nil && meta != nil
 //@   requires forall i int :: 0 <= i && i < len(report.Programs) ==> specProgram(report.Programs[i])
 //@   ensures specProgram(result)
@@ -192,6 +193,7 @@ func specUploader(u *uploader) bool {
 // createReport: count files are deleted only once a report file for the week
 // is known to exist, and only the files handed in are deleted.
 //@ contract (*uploader).createReport
+//@   timeout 60
 //@   requires uploaderOK(u)
 //@   ensures uploaderOK(u)
 //@   requires $mode != "off"
